@@ -180,3 +180,10 @@ META = dict(
     assumptions=["bonding limit 2.5 A taken from the property statement; boundary d = 2.5 counts as not bonded on both sides (strict <)"],
     technique="symbolic execution of the real update_ss_bridges/add_hydrogens/set_state on a symbolic distance metric (symx) + SMT verdict per path",
 )
+
+MANIFEST = dict(
+    text='For C13: Biomolecule.update_ss_bridges + apply_patch + add_hydrogens (HG suppression) + CYS.set_state on 2..4 (thorough 5) real CYS residues in four chain layouts and several file orders, with the SG-SG distances an arbitrary symbolic metric, so every placement around the 2.5 A limit (including the boundary) is covered.',
+    note='Trusted: z3, symx proxies. util.distance is stubbed for SG-SG pairs (returns the symbolic metric); everything else is the real code on structures generated from AA.xml templates. Non-isolated configurations are unconstrained by the property. N <= 5 cysteines.',
+    technique='symbolic execution of real code on z3 Real proxies (symx) + SMT verdict per path',
+    design='DESIGN.md section 3 C13',
+)
